@@ -123,10 +123,11 @@ let job_tcheck (job : Sx.t) : string =
      | ParseExpr.POk (up, _) ->
        let p = UAst.uprogram_of_parsed up (Jfront.bytes_of_string main) in
        let real = match Sx.try_field job "ast" with None -> None | Some f -> Some (Jprog.program (Stdlib.List.hd (Sx.args f))) in
+       let fr = if InferSound.in_sound_fragment p then " (sound-fragment 1)" else " (sound-fragment 0)" in
        (match Infer.check_program intern (nat_of_int 400) p, real with
         | Infer.COk m, Some r ->
           let pm = parts m and pr = parts r in
-          if pm = pr then "(same)"
+          if pm = pr then "(same)" ^ fr
           else begin
             (* first differing part *)
             let rec first a b = match a, b with
